@@ -99,6 +99,9 @@ pub struct ListSnap {
     pub problems: Vec<String>,
     pub head: usize,
     pub tail: usize,
+    /// the hash index claims entries it cannot find (interrupted in-place rehash): the table must
+    /// not be traversed any more (neither by the audit nor by the library's Drop)
+    pub corrupt: bool,
 }
 
 impl ListSnap {
@@ -153,6 +156,9 @@ impl Alpha {
                 .iter()
                 .zip(other.lists.iter())
                 .all(|(a, b)| a.ents == b.ents)
+    }
+    pub fn corrupt(&self) -> bool {
+        self.lists.iter().any(|l| l.corrupt)
     }
     pub fn resident(&self, ident: u32) -> Option<(usize, &Ent)> {
         for (i, l) in self.lists.iter().enumerate().take(self.kind.resident_lists()) {
@@ -281,6 +287,28 @@ pub fn snap_list<K: SimKey, E: caches::OnEvictCallback, S: std::hash::BuildHashe
         });
     };
     let mut is_live = |a: usize, sz: usize| crate::alloc::is_live(a, sz);
+    if relaxed && world::index_probe() {
+        // The panic was injected while the index was rehashing its entries (no list operation is in
+        // flight then). Look every linked node up instead of traversing the table: an index that
+        // claims more entries than can be found has lost its own count, and traversing it (as the
+        // audit below, `Drop` and every later growth of the table do) reads beyond the table.
+        let bound = caches::Cache::len(l).saturating_add(4);
+        let (claimed, found) = world::suspended(|| l.verif_index_probe(bound, &mut is_live));
+        if claimed > found {
+            return ListSnap {
+                cap: caches::Cache::cap(l),
+                map_len: claimed,
+                ents: Vec::new(),
+                problems: vec![format!(
+                    "the index claims {} entries but only {} of the linked nodes can be found through it: the interrupted rehash left the table's count wrong, any traversal of it (Drop, growth) would read beyond the table",
+                    claimed, found
+                )],
+                head: 0,
+                tail: 0,
+                corrupt: true,
+            };
+        }
+    }
     // a well-formed chain closes after len() nodes: a small slack is enough to tell a cycle or a
     // run-away chain from a closed one (and keeps the audit O(len) on corrupted lists)
     let bound = caches::Cache::len(l).saturating_add(4);
@@ -392,5 +420,6 @@ pub fn snap_list<K: SimKey, E: caches::OnEvictCallback, S: std::hash::BuildHashe
         problems,
         head: rep.head,
         tail: rep.tail,
+        corrupt: false,
     }
 }
